@@ -59,16 +59,18 @@ namespace link_layer {
                 static constexpr std::size_t  scan_request_size = 2 * address_length;
                 static constexpr std::uint8_t scan_request_code = 0x03;
 
+                if ( receive.size != Layout::data_channel_pdu_memory_size( scan_request_size ) )
+                    return false;
+
                 const std::uint16_t header = Layout::header( receive );
 
-                bool result = receive.size == Layout::data_channel_pdu_memory_size( scan_request_size )
-                    && ( ( header >> 8 ) & 0x3f ) == scan_request_size
+                bool result = ( ( header >> 8 ) & 0x3f ) == scan_request_size
                     && ( header & 0x0f ) == scan_request_code;
 
                 if ( result )
                 {
-                    const auto body = Layout::body( receive );
-                    result = result && std::equal( &body.begin[ address_length ], &body.begin[ 2 * address_length ], addr.begin() );
+                    const auto body = Layout::body( receive ).first;
+                    result = result && std::equal( &body[ address_length ], &body[ 2 * address_length ], addr.begin() );
                     result = result && addr.is_random() == ( ( header & header_rxaddr_field ) != 0 );
                 }
 
@@ -500,7 +502,8 @@ namespace link_layer {
 
             bool is_valid_scan_request( const read_buffer& receive ) const
             {
-                return details::advertising_type_base::is_valid_scan_request( receive, link_layer().local_address() );
+                using layout_t = typename pdu_layout_by_radio< typename LinkLayer::radio_t >::pdu_layout;
+                return details::advertising_type_base::is_valid_scan_request< layout_t >( receive, link_layer().local_address() );
             }
 
             bool is_valid_connect_request( const read_buffer& ) const
